@@ -114,6 +114,12 @@ class C14(Prop):
     # ----- implementation side
     def run_impl(self, inp):
         from twisted.logger import globalLogPublisher as pub
+        if not C14._frozen:
+            # what exists when the first program is run (modules, the harness) is not garbage: take it out of the collector's
+            # sight, the full collections - the runner under test does one per run - then cost a fraction
+            gc.collect()
+            gc.freeze()
+            C14._frozen = True
         orig = list(pub._observers)
         for o in orig:
             pub.removeObserver(o)
@@ -143,9 +149,6 @@ class C14(Prop):
             # echoes each of them to stderr at some later collection.  (The run is over: nothing the runner observes changes.)
             if self._drops(inp) and not (isinstance(trace, list) and len(trace) >= 10 and not trace[1] and trace[9] < inp[0]):
                 # (not needed when the run ended before the timeout without a stop request: the runner consumed them)
-                if not C14._frozen:
-                    gc.freeze()                 # objects that exist by now are not garbage: keeps the full collections cheap
-                    C14._frozen = True
                 gc.collect()
             else:
                 gc.collect(1)
